@@ -49,8 +49,7 @@ def spec(arch, row, first, regs, mem):
 def generate(rng, tier):
     out = []
     reps = 6 if tier == "quick" else 200
-    for rep in range(reps):
-        arch = "x86" if rep % 2 == 0 else "a64"
+    def rows_script(name, arch, rows, rep, nstates):
         R = ARCH_REGS[arch]
         s = Script(arch, "may" if rep % 4 < 2 else "must")
         lo_base, hi_base = 0x7000, (1 << 63) + 0x7000
@@ -61,37 +60,6 @@ def generate(rng, tier):
                 v = 0 if c == 0 else (0x20000 + rng.below(0x1000) if c < 8 else (b + 8 * rng.below(140)))
                 memd[b + 8 * i] = v
         mem_line = s.add("mem S 0")          # placeholder, filled in below
-        rows = []
-        for i in range(64):
-            cfa = ("r", rng.choice([R["sp"], R["sp"], R["fp"]]), rng.choice(OFFS[arch]))
-            fpr = rng.choice([("u",), ("s",), ("o", rng.choice(SLOTS)), ("o", -16)])
-            rar = rng.choice([("u",), ("s",), ("o", -8), ("o", -8), ("o", rng.choice(SLOTS))])
-            rows.append(dict(cfa=cfa, fp=fpr, ra=rar))
-        if rep < 2 or tier != "quick" and rep % 8 < 2:
-            # the full cross product of the small special values (the shortcuts of the translation are conjunctions
-            # of exactly such values: every combination occurs, not only the standard ones)
-            small = [("u",), ("s",), ("o", -8), ("o", -16), ("o", -24), ("o", -12)]
-            for reg in (R["sp"], R["fp"]):
-                for off in (0, 8, 16, 24, 32):
-                    for fpr in small:
-                        for rar in small:
-                            rows.append(dict(cfa=("r", reg, off), fp=fpr, ra=rar))
-        if rep < 4 or tier != "quick" and rep % 8 >= 6:
-            # slots and frame sizes around the limits of the compressed rules (u16 / i16 counts of 8 or 16 bytes)
-            gran = 8 if arch == "x86" else 16
-            for reg in (R["sp"], R["fp"]):
-                for off in (0x3fff8 if arch == "x86" else 0x3fff0, 0x40000, 0x40000 + gran, 0x50000, 0x80000 - gran, 0x80000, 0x100000 - gran, 0x100000):
-                    for fpr in (("s",), ("o", -16), ("o", -off), ("o", 8 - off) if arch == "x86" else ("o", 16 - off)):
-                        for rar in (("o", -8), ("s",), ("o", 8 - off)):
-                            rows.append(dict(cfa=("r", reg, off), fp=fpr, ra=rar))
-            # expressions that do not produce an address (every way framehop's evaluation gives up), in every position
-            zoo = [[], [("bad",)], [("plus",)], [("drop",)], [("reg0",)], [("breg", R["sp"], 8), ("stackvalue",)], [("deref",)],
-                   [("breg", R["sp"], 16), ("deref",)], [("breg", 40, 0)], [("lit", 3), ("lit", 4)], [("breg", R["sp"], 32)]]
-            for ops in zoo:
-                rows.append(dict(cfa=("e", ops), fp=("s",), ra=("o", -8)))
-                rows.append(dict(cfa=("r", R["sp"], 32), fp=("e", ops), ra=("o", -8)))
-                rows.append(dict(cfa=("r", R["sp"], 32), fp=("s",), ra=("e", ops)))
-                rows.append(dict(cfa=("r", R["sp"], 32), fp=("ve", ops), ra=("ve", ops)))
         pres = ["hdr", "eh", "debug"][rep % 3]
         fdes = [dict(start=0x1000 + 0x10 * i, len=0x10, rows=[(0, r)]) for i, r in enumerate(rows)]
         s.module_dwarf("M", 0x100000, 0x100000 + 0x1000 + 0x10 * len(rows) + 0x100, 0x100000, 0, pres, fdes, rng, shuffle=True)
@@ -102,7 +70,7 @@ def generate(rng, tier):
                 c = rng.below(12)
                 memd[a] = 0 if c == 0 else (0x20000 + rng.below(0x1000) if c < 8 else (lo_base + 8 * rng.below(140)))
         for i, r in enumerate(rows):
-            for st in range(3 if tier == "quick" else 6):
+            for st in range(nstates):
                 base = hi_base if rng.chance(1, 5) else lo_base
                 sp = base + 8 * rng.range(0, 60) * (2 if arch == "a64" else 1)
                 fp = base + 8 * rng.range(0, 100)
@@ -127,7 +95,49 @@ def generate(rng, tier):
                 s.tags[ln] = "%s:%s:%s:%s:%d" % (arch, "expr" if r["cfa"][0] != "r" else ("sp" if r["cfa"][1] == R["sp"] else "fp"), r["ra"][0], r["fp"][0], first)
         items = sorted(memd.items())
         s.lines[mem_line - 1] = "mem S %d %s" % (len(items), " ".join("%s %s" % (hx(a), hx(v)) for a, v in items))
-        out.append(("rows-%s-%d" % (arch, rep), s))
+        out.append((name, s))
+
+    nstates = 3 if tier == "quick" else 6
+    for rep in range(reps):
+        arch = "x86" if rep % 2 == 0 else "a64"
+        R = ARCH_REGS[arch]
+        rows = []
+        for i in range(64):
+            cfa = ("r", rng.choice([R["sp"], R["sp"], R["fp"]]), rng.choice(OFFS[arch]))
+            fpr = rng.choice([("u",), ("s",), ("o", rng.choice(SLOTS)), ("o", -16)])
+            rar = rng.choice([("u",), ("s",), ("o", -8), ("o", -8), ("o", rng.choice(SLOTS))])
+            rows.append(dict(cfa=cfa, fp=fpr, ra=rar))
+        rows_script("rows-%s-%d" % (arch, rep), arch, rows, rep, nstates)
+    # systematic part, in scripts of at most 100 rows (the extracted model rebuilds the index on every call)
+    for gi in range(1 if tier == "quick" else 8):
+        for arch in ("x86", "a64"):
+            R = ARCH_REGS[arch]
+            sysrows = []
+            # the full cross product of the small special values (the shortcuts of the translation are conjunctions
+            # of exactly such values: every combination occurs, not only the standard ones)
+            small = [("u",), ("s",), ("o", -8), ("o", -16), ("o", -24), ("o", -12)]
+            for reg in (R["sp"], R["fp"]):
+                for off in (0, 8, 16, 24, 32):
+                    for fpr in small:
+                        for rar in small:
+                            sysrows.append(dict(cfa=("r", reg, off), fp=fpr, ra=rar))
+            # slots and frame sizes around the limits of the compressed rules (u16 / i16 counts of 8 or 16 bytes)
+            gran = 8 if arch == "x86" else 16
+            for reg in (R["sp"], R["fp"]):
+                for off in (0x3fff8 if arch == "x86" else 0x3fff0, 0x40000, 0x40000 + gran, 0x50000, 0x80000 - gran, 0x80000, 0x100000 - gran, 0x100000):
+                    for fpr in (("s",), ("o", -16), ("o", -off), ("o", 8 - off) if arch == "x86" else ("o", 16 - off)):
+                        for rar in (("o", -8), ("s",), ("o", 8 - off)):
+                            sysrows.append(dict(cfa=("r", reg, off), fp=fpr, ra=rar))
+            # expressions that do not produce an address (every way framehop's evaluation gives up), in every position
+            zoo = [[], [("bad",)], [("plus",)], [("drop",)], [("reg0",)], [("breg", R["sp"], 8), ("stackvalue",)], [("deref",)],
+                   [("breg", R["sp"], 16), ("deref",)], [("breg", 40, 0)], [("lit", 3), ("lit", 4)], [("breg", R["sp"], 32)]]
+            for ops in zoo:
+                sysrows.append(dict(cfa=("e", ops), fp=("s",), ra=("o", -8)))
+                sysrows.append(dict(cfa=("r", R["sp"], 32), fp=("e", ops), ra=("o", -8)))
+                sysrows.append(dict(cfa=("r", R["sp"], 32), fp=("s",), ra=("e", ops)))
+                sysrows.append(dict(cfa=("r", R["sp"], 32), fp=("ve", ops), ra=("ve", ops)))
+            for ci in range(0, len(sysrows), 100):
+                rows_script("grid-%s-%d-%d" % (arch, gi, ci // 100), arch, sysrows[ci:ci + 100], gi * 7 + ci // 100, 2 if tier == "quick" else 4)
     # the compressed rules themselves, at the hook level (model correspondence)
     for arch in ("x86", "a64"):
         nm, sc = suites.exec_suite(rng, arch, 3000 if tier == "quick" else 60000)
